@@ -52,7 +52,7 @@ BASE = dict(NTopics=1, NClients=2, Rounds=1, MaxEvents=1, MaxPolls=0, MaxTicks=0
             SpinTopics="{}", BufCap=1, RespCap=1, WithIndexer="FALSE", MaxHeaders=0, TraceMode="FALSE")
 
 SIZES = {
-    "quick": dict(sim=24, stress=24, race=4, stress_events=8),
+    "quick": dict(sim=20, stress=20, race=4, stress_events=8),
     "thorough": dict(sim=1500, stress=400, race=40, stress_events=12),
 }
 
@@ -91,13 +91,14 @@ DESIGN_INVS = ["NoCrash", "NoLostTopic", "LockInv", "NoLeakedPublisher", "TopicA
 
 def design_configs(tier):
     q = [
-        ("es-2c-1r-2e", dict(NClients=2, Rounds=1, MaxEvents=2), 16),
+        ("es-2c-1r-1e", dict(NClients=2, Rounds=1, MaxEvents=1), 16),
         ("es-1c-3r-1e", dict(NClients=1, Rounds=3, MaxEvents=1), 16),
         ("api-1c", dict(NClients=1, Rounds=1, MaxEvents=1, Api="TRUE", MaxPolls=1, MaxTicks=1, MaxFires=1, NTopics=2, SpinTopics="{2}"), 16),
         ("indexer", dict(NClients=0, MaxEvents=0, WithIndexer="TRUE", MaxHeaders=3), 16),
     ]
     if tier == "thorough":
         q += [
+            ("es-2c-1r-2e", dict(NClients=2, Rounds=1, MaxEvents=2), 16),
             ("es-1c-3r-2e", dict(NClients=1, Rounds=3, MaxEvents=2), 16),
             ("es-2c-1r-2t", dict(NClients=2, Rounds=1, MaxEvents=1, NTopics=2), 16),
             ("api-1c-2r", dict(NClients=1, Rounds=2, MaxEvents=0, Api="TRUE", MaxPolls=1, MaxTicks=1, MaxFires=1, NTopics=2, SpinTopics="{2}"), 16),
@@ -271,8 +272,9 @@ def replay_plan(steps, consts, out, seed=1):
 
 DEVIATIONS = [
     # id, constants of the counterexample run, invariant that prints the schedule, expected class on the real code
-    ("D11", dict(NClients=1, Rounds=1, MaxEvents=1), "CexNoCrash", "crash"),
+    # (D12 first: its repair changes the steps of publishTopic, which the judge of the later ones must know)
     ("D12", dict(NClients=1, Rounds=2, MaxEvents=0), "CexLostD12", "lost"),
+    ("D11", dict(NClients=1, Rounds=1, MaxEvents=1), "CexNoCrash", "crash"),
     ("D18", dict(NClients=2, Rounds=1, MaxEvents=0), "CexLostD18", "lost"),
     ("D19", dict(NClients=2, Rounds=1, MaxEvents=0, Api="TRUE", NTopics=2, SpinTopics="{2}"), "CexNoSpin", "spin"),
 ]
@@ -315,9 +317,10 @@ def sub_deviations(ctx):
             % (dk, len(steps), r["distinct"]))
         def once(k, dk=dk, steps=steps, consts=consts):
             plan = replay_plan(steps, consts, os.path.join(d, "%s-run%d" % (dk, k)))
-            o = classify(binp, plan, ALL[:4])
+            base = [x for x in ALL[:4] if x not in ctx["absent"]]
+            o = classify(binp, plan, base)
             if o["cls"] == "reject":  # the tree may have this defect repaired in a way that changes the steps
-                o2 = classify(binp, plan, [x for x in ALL[:4] if x != dk])
+                o2 = classify(binp, plan, [x for x in base if x != dk])
                 if o2["cls"] == "clean":
                     o = o2
             return o
@@ -342,6 +345,7 @@ def sub_deviations(ctx):
             ctx["traces_ok"] += 3
             log("deviation %s REPRODUCED on the real code 3/3: %s %s" % (dk, o["cls"], o["detail"][:120]))
         elif o["cls"] in ("clean",):
+            ctx["absent"].add(dk)
             ctx["traces_ok"] += 3
             log("deviation %s: the real code does not follow the defective schedule (steps not offered: %s) -> absent"
                 % (dk, "; ".join(o["diverged"][:2]) or "none, outcome clean"))
@@ -472,12 +476,16 @@ def handle_outcome(ctx, o, plan, tag, known):
     if o["cls"] == "stuck":
         ctx["stalls"].append((tag, o["detail"], plan))
         return
+    key = (o["cls"], tuple(o["dev_used"]))
+    if o["cls"] != "reject" and key in ctx["reported"]:
+        return
     rp = vlib.save_replay(ctx["pid"], tag, [([json.dumps(dict(kind="run", plan=dict(plan, out="replayed"), known=sorted(known)))], "case.json"),
                                             (os.path.join(plan["out"], "trace.ndjson"), "trace.ndjson")],
                           "%s: real execution judged '%s' (%s), deviations exercised %s" % (tag, o["cls"], o["detail"], o["dev_used"]))
     if o["cls"] == "reject":
         ctx["rejects"].append((tag, o["detail"], plan, rp))
     else:
+        ctx["reported"].add(key)
         v.violation("Schedule/%s-%s" % (o["cls"], "+".join(o["dev_used"]) or "nodeviation"), rp,
                     "%s: %s %s (deviations exercised: %s)" % (tag, o["cls"], o["detail"], o["dev_used"]))
 
@@ -679,7 +687,7 @@ def check_c20(pid, tier, seed, replay):
         if p.returncode != 0:
             raise Infra("the repository tree has no hook H3 (verifhook.At in pubsub.go / filter_system.go): " + p.stdout.strip()[-300:])
         ctx = dict(v=v, w=w, pid=pid, tier=tier, seed=seed, bin=binp, bin_race=None, cov=v.cov, present=set(), samples=[], selftests=[],
-                   replayed=0, traces_ok=0, evaluations=0, classes={}, dev_windows={}, rejects=[], stalls=[], nontrivial=set(), first_clean=None)
+                   absent=set(), reported=set(), replayed=0, traces_ok=0, evaluations=0, classes={}, dev_windows={}, rejects=[], stalls=[], nontrivial=set(), first_clean=None)
         try:
             ctx["bin_race"] = vlib.build("vh_conc", race=True)
         except Infra as e:
